@@ -2,9 +2,10 @@ from lib.runner import Ob
 from obligations.common import *
 from obligations.C18 import UF, ST
 
-LEVEL_NOTE = ('ONLY the last clause of the property (loop callbacks fire "whenever they were registered and regardless of later resets or file loads") is decided, '
-              'by bounded model checking of the real registration/reset code on the real player; loop counting, All-Notes-Off before a jump and marker validation '
-              'live in the sequencer (processEvents / buildSmfTrackData), which was not encoded (DESIGN.md section 4)')
+LEVEL_NOTE = ('two clauses are decided by bounded model checking of the real code (LLVM IR route): (a) loop callbacks persist across resets (registration/reset code on the '
+              'real player), (b) the jump decision at the end of the song: the tail of BW_MidiSequencer::processEvents driven through the real setLoopsCount/'
+              'setLoopEnabled/setLoopHooksOnly/rewind on a sequencer whose single track has ended; marker detection/validation and loops in the middle of a song '
+              '(buildSmfTrackData, the per-track part of processEvents) are not encoded (DESIGN.md section 4)')
 
 OBLIGATIONS = [
     Ob('C09.persist.hooks', 'C09', 'ir/c18_settings.cpp', engine='ir', entry='harness_hooks', unwind=20, unwind_funcs=UF, unwindset={'memcmp.0': 40},
@@ -12,3 +13,10 @@ OBLIGATIONS = [
        desc='loop-start / loop-end callbacks registered through opn2_setLoopStartHook / opn2_setLoopEndHook are still the ones installed in the sequencer interface after opn2_reset, opn2_switchEmulator, opn2_setNumChips, opn2_setRunAtPcmRate or opn2_setChipType',
        bounds='one reconfiguration call out of five after registration; OPNMIDI_MIDI2VGM build configuration (the shipped one)', stubs=ST),
 ]
+
+OBLIGATIONS.append(
+    Ob('C09.loop.decision', 'C09', 'ir/c09_loop.cpp', engine='ir', entry='harness_loop', unwind=20, unwindset={'memcmp.0': 40},
+       repo_tus=['src/opnmidi_sequencer.cpp'], ir_opts={'chip_defs': [], 'tv_vectors': 12}, timeout={'quick': 900, 'thorough': 2400},
+       desc='after the real rewind() from an arbitrary left-over loop state, up to 5 arrivals at the song end: loop-end hook once and All-Notes-Off on all 16 channels per arrival; count N (1..4) = N passes then end of song, count -1 never ends, looping disabled / hooks-only ends at once; every jump lands on the loop start',
+       bounds='requested count in {-1, 1..4}; 5 arrivals; one track that has delivered all its events (the jump decision does not depend on the events); loop stack (nested loops) not exercised',
+       stubs=['operator new never fails', 'std list/tree primitives: harness/ir/stdmodels.hpp']))
